@@ -75,6 +75,17 @@ PROPS["C05"] = {
     "assumptions": ["callers pass a result buffer of BufSize bytes (every caller in galene does)", "packet sizes 1..1504, capacities 1..65535"],
 }
 
+PROPS["C06"] = {
+    "units": [
+        plain("regress", "packetcache", "TestVerif_C06_Regress_.*"),
+        rapid("bitmap-stats-model", "packetcache", "TestVerif_C06_BitmapStatsModel", 4000, 30000),
+        rapid("tobitmap", "packetcache", "TestVerif_C06_ToBitmap", 4000, 30000),
+    ],
+    "technique": "model-based property testing (rapid): loss bitmap / statistics / NACK packing against a model with extended seqnos; real readLoop with captured RTCP",
+    "assumptions": ["the packet-rate estimate is 0 in a fast test, so only the 2-packet NACK threshold is exercised",
+                    "'is requested from the publisher' is checked as 'a NACK was written to the PeerConnection'"],
+}
+
 NOT_APPLICABLE = {}
 
 ENGINES = [
